@@ -40,6 +40,14 @@ def check(repo: Repo, rep: Report) -> None:
     rep.rule("S1-sign-only", "slice_ branches only on comparisons among its locals and small integer constants (the enumeration domain is sized from them)", floor=4)
     rep.rule("S2-slice-semantics", "for every sign class: composed pipeline == list slicing for all n <= 8", floor=40)
     rep.rule("S3-getitem-int", "source[k] == [xs[k]] (or empty when out of range) for k in -5..5", floor=8)
+    rep.rule("S4-bounds-reentrant", "the positional operators slice_ composes update their countdown before the downstream on_next it gates", floor=1)
+    from . import state_common as SC
+    n_gate = 0
+    for rel, q in (("reactivex/operators/_take.py", "take_.subscribe"), ("reactivex/operators/_skip.py", "skip_.subscribe"),
+                   ("reactivex/operators/_takelast.py", "take_last_.subscribe"), ("reactivex/operators/_skiplast.py", "skip_last_.subscribe"),
+                   ("reactivex/operators/_filter.py", "filter_indexed_.subscribe")):
+        n_gate += SC.rule_state_before_callout(rep, "S4-bounds-reentrant", repo.fn(rel, q))
+    rep.require(n_gate >= 1, "gate writes in the positional operators")
     fn = repo.fn(SL, "slice_")
     consts = [0]
     for s in sites(fn):
